@@ -12,7 +12,7 @@ def run(tier, seed):
     jobs = []
     for prof, b in bins.items():
         for part in ('f32', 'f64', 'int', 'weighted'):
-            jobs.append({'profile': prof, 'seed': V.seed_env() * 1000 + 17, 'nrand': 24 if th else 4, 'deep': th, 'part': part, 'cases': [], '_bin': b})
+            jobs.append({'profile': prof, 'seed': V.seed_env() * 1000 + 17, 'nrand': 24 if th else 10, 'deep': th, 'part': part, 'cases': [], '_bin': b})
     events, meta = V.run_shards(None, 'ctor', jobs, wd, 'ctor', wall_timeout=3600, resumable=False)
     ver = V.Verdict('C04')
     calls = unspec = acc = 0
